@@ -1194,7 +1194,20 @@ engine_gen(struct plan * P, uint64_t seed, struct prng * g)
 		}
 		break;
 	case 3:
-		plan_add(P, "knob", "pool", 1, (int64_t)prng_n(g, 3));
+		{
+			int pk = (int)prng_n(g, 3);
+
+			plan_add(P, "knob", "pool", 1, (int64_t)pk);
+			if (prng_chance(g, pk == 2 ? 30 : 10)) {
+				/* cross the cache size of the pool (1, 4 or 4096 objects) by a wide margin, release everything, start over */
+				int big = (pk == 2 ? 4100 : 20) + (int)prng_n(g, 300), k;
+
+				for (k = 0; k < big; k++)
+					plan_add(P, "step", "malloc", 1, (int64_t)0);
+				for (k = 0; k < big; k++)
+					plan_add(P, "step", "free", 1, (int64_t)prng_n(g, 100000));
+			}
+		}
 		for (i = 0; i < n; i++) {
 			int burst = prng_chance(g, 25) ? 3 + (int)prng_n(g, 40) : 1, k;
 			int isfree = prng_chance(g, 48);
